@@ -580,6 +580,10 @@ MANIFEST = dict(
           'coq/model/Multipart.v ends with exactly the sections and error of the one-piece reference scanner ref '
           '(coq/model/MultipartRef.v, built on first-occurrence search only); C06_split_independent and '
           'C06_split_independent_pairwise are its corollaries (two divisions of the same bytes give the same result). '
+          'C06_grammar_bodies_are_wf proves that every prefix of every body of the multipart grammar (any boundary '
+          'without CR, optional leading CRLF, any number of parts with >= 1 header line free of CR/LF and data free of '
+          'the delimiter, any epilogue) is a wf_prefix, C06_wf_prefix_closed that wf_prefix is prefix closed, and '
+          'C06_grammar_split_independent states the property directly on grammar bodies (reference result, no error). '
           'Staging lemmas, each a theorem of its own: C06_match_tail_unique/_spec, C06_eat_data_spec (block-wise '
           'search with carry = first occurrence in carried prefix ++ chunk[base:], else longest partial match), '
           'C06_eat_headers_spec, C06_carry_is_longest_partial_match. The model follows multipart.py branch for branch '
